@@ -68,7 +68,7 @@ def bytes_models(I, st, caller, func, args, argtys, dest_ty):
     f = strip_std_paths(func).replace("std::slice::<impl", "core::slice::<impl").replace("alloc::slice::<impl", "core::slice::<impl")
     m = re.match(r"^core::slice::<impl \[u8\]>::(\w+)(::<(.*)>)?$", f)
     sl = as_slice(I, st, args[0]) if args else None
-    if m and sl is not None:
+    if m and sl is not None and m.group(1) != "copy_from_slice":
         op, ga = m.group(1), m.group(3)
         if op == "len":
             return ret(st, sl.length)
@@ -102,6 +102,8 @@ def bytes_models(I, st, caller, func, args, argtys, dest_ty):
                         lambda s3: [Outcome("return", mk_option(False), s3)])
         if op == "to_vec":
             return ret(st, sl)
+        if op in ("as_ptr", "as_mut_ptr"):
+            return ret(st, Opaque("raw pointer into the buffer", sl))
         if op == "copy_from_slice":
             return None
     if re.match(r"^core::slice::<impl \[u8\]>::copy_from_slice$", f) or re.match(r"^core::slice::<impl \[T\]>::copy_from_slice", f):
@@ -150,6 +152,9 @@ def bytes_models(I, st, caller, func, args, argtys, dest_ty):
             for b in vals:
                 r = r * 256 + b
             return ret(st, z3.simplify(r))
+    if re.match(r"^core::f64::<impl f64>::from_(be|le)_bytes$", f):
+        I.fresh_counter += 1
+        return ret(st, z3.FP("f64_read!%d" % I.fresh_counter, z3.Float64()))
     m = re.match(r"^<&\[u8\] as TryInto<\[u8; (\d+)\]>>::try_into$", f) or re.match(r"^<\[u8; (\d+)\] as TryFrom<&\[u8\]>>::try_from$", f)
     if m and sl is not None:
         n = int(m.group(1))
